@@ -28,6 +28,10 @@ pub fn main(args: &[String]) -> ! {
     if args[0] == "c14shard" {
         crate::props::c14::shard_main(&args[1..]);
     }
+    if args[0] == "envlint" {
+        println!("{:?}", crate::envprobe::library_env_reads());
+        std::process::exit(0);
+    }
     if args[0] == "envprobe" {
         // one line of JSON: item -> digest, computed in the environment this process was given
         let map = crate::envprobe::compute(Path::new(&args[1]));
